@@ -42,6 +42,10 @@ Unusual == {
   "export const s = <Fragment key={1}>t</Fragment>;", "export const s = <KeepAlive include=\"a\"><C/></KeepAlive>;",
   "export default <div/>;", "export default () => <C>{f()}</C>;", "label: { break label; } export const s = <div/>;",
 
+  "export function s() { try { throw 0; } catch (e) { return <A>{f()}</A>; } finally { x = <B>{g()}</B>; } }",
+  "export class K { static { K.v = <A>{f()}</A>; } get g() { return <A>{h()}</A>; } m(p = <B>{q()}</B>) { return p; } }",
+  "lbl: for (const i of [<A>{f()}</A>]) { switch (i) { case 1: x = <B>{g()}</B>; break lbl; default: y = <C>{h()}</C>; } }",
+  "export const s = (a = <A>{f()}</A>, b = () => <B>{g()}</B>) => { if (a) return <C>{h()}</C>; else return <D>{k()}</D>; };",
   "export const s = <C>{function* () {}}</C>;", "export const s = <C>{class {}}</C>;", "export const s = <div>{`a${b}`}</div>;",
   "export const s = <div a='&quot;&amp;' b=\"\\n\">&lt;&#x41;</div>;",
   "export const s = <a href=\"C:\\users\\me\" sep=\"\\\" pattern=\"(a|b)\\1\" q='\\x' />;",
